@@ -1,4 +1,5 @@
 import OdmlModel.Model.Heap
+import OdmlModel.Model.HeapQuery
 import OdmlModel.Py.Uuid
 import Driver.Util
 open Lean Drv
@@ -63,13 +64,20 @@ def decOp (j : Json) : Except String Op := do
 def kindStr : Kind → String
   | .doc => "doc" | .sec => "sec" | .prop => "prop"
 
+/-- `obj.document` of the query model (`Model/HeapQuery.lean`) as JSON: a handle or null. -/
+def docJson (h : H) (i : Nat) : Json :=
+  match Heap.document h i with
+  | none => Json.null
+  | some r => jnat r
+
 def snapshot (h : H) : Json :=
   jarr ((List.range h.size).map fun i =>
     let n := h.node i
     jobj [("kind", jstr (kindStr n.kind)), ("name", jstr (if n.kind = .doc then "" else n.name)),
           ("id", jstr n.id),
           ("parent", match n.parent with | none => Json.null | some p => jnat p),
-          ("secs", jarr (n.secs.map jnat)), ("props", jarr (n.props.map jnat))])
+          ("secs", jarr (n.secs.map jnat)), ("props", jarr (n.props.map jnat)),
+          ("doc", docJson h i)])
 
 def excStr : Exc → String
   | .valueError => "ValueError" | .keyError => "KeyError" | .indexError => "IndexError"
